@@ -9,4 +9,5 @@ CONSTANTS
   MaxHist = 60
 VIEW view
 INVARIANTS P35 P36 P36b P14 P14b P15 P15b P13 P16 P16c PCnt
+PROPERTY WgContract
 CHECK_DEADLOCK FALSE
